@@ -257,6 +257,8 @@ func jobsFor(prop, tier string) []*Job {
 		add(&Job{Name: fmt.Sprintf("O2-metrics/k=%d", k), Pkg: "memmetrics", Harness: "VerifC18Metrics", Grid: 1e9, Params: p("k", k, "t0span", 40), TimeoutS: 120, MergeBlind: true,
 			Merge: map[string]bool{"(*github.com/vulcand/oxy/v2/memmetrics.RollingCounter).cleanup": true, "(*github.com/vulcand/oxy/v2/memmetrics.RollingCounter).incBucketValue": true},
 			Bounds: fmt.Sprintf("%d Record calls with codes chosen symbolically from {200,404,500,502,504} at one instant (symbolic within a window covering every bucket residue), then the ratios and Reset", k)})
+		add(&Job{Name: "O4-overlapping-completions", Pkg: "cbreaker", Harness: "VerifC18Overlap", TimeoutS: 60,
+			Bounds: "two concurrent requests from standby: the second runs to completion at any one lock boundary of the first (two-thread sequentialisation, one preemption, scheduling points = mutex acquire/release), symbolic clock movement, durations and condition outcomes: effects once per transition, one metrics reset per trip"})
 		for part := 0; part < 16; part++ {
 			add(&Job{Name: fmt.Sprintf("O3-decision-and-effects/k=4,depth=1,part=%d", part), Pkg: "cbreaker", Harness: "VerifC05History", Params: p("k", 4, "depth", 1, "part", part, "parts", 16),
 				Bounds: "history harness of C05 with 4 sequential requests (trip, recovery, re-trip from recovery, second recovery): same clauses"})
